@@ -4,7 +4,7 @@ import re
 
 from ..core import AnalysisError, u, walk_local, enclosing_stmt
 from ..lib import (construct, std_facts, def_of, facts_at, calls_of_node,
-                   in_subtree, single_reaching_value, returns_of)
+                   in_subtree, single_reaching_value, returns_of, format_sites)
 
 from .c19 import import_aliases
 from .common import method_selector_rule
@@ -96,8 +96,21 @@ def run(ctx):
   if out_var is None:
     raise AnalysisError('_config_str: output list not found')
   n_loops = 0
+  # lists whose content ends up in the output: OUT.extend(L) / OUT += L / aliases
+  outs = {out_var}
+  for _ in range(4):
+    for n in walk_local(cs.node):
+      if isinstance(n, ast.Call) and isinstance(n.func, ast.Attribute) and n.func.attr == 'extend' and u(n.func.value) in outs \
+          and n.args and isinstance(n.args[0], ast.Name):
+        outs.add(n.args[0].id)
+      elif isinstance(n, ast.AugAssign) and isinstance(n.op, ast.Add) and u(n.target) in outs and isinstance(n.value, ast.Name):
+        outs.add(n.value.id)
+      elif isinstance(n, ast.Assign) and len(n.targets) == 1 and isinstance(n.targets[0], ast.Name) and n.targets[0].id in outs \
+          and isinstance(n.value, ast.Name):
+        outs.add(n.value.id)
   for lp in [n for n in walk_local(cs.node) if isinstance(n, ast.For)]:
-    appends = [c for c in walk_local(lp) if isinstance(c, ast.Call) and u(c.func) == out_var + '.append']
+    appends = [c for c in walk_local(lp) if isinstance(c, ast.Call) and isinstance(c.func, ast.Attribute) and c.func.attr in ('append', 'extend')
+               and u(c.func.value) in outs]
     if not appends:
       continue
     n_loops += 1
@@ -195,8 +208,10 @@ def run(ctx):
             'the keywords the formatter emits (%s) are the ones the import parser consumes' % sorted(need),
             'import formatter emits %s but the parser consumes %s' % (sorted(words & (need | consumed)), sorted(consumed & (need | words))),
             fm.loc(), instance='keywords')
-  rs = [c for c in walk_local(fm.node) if isinstance(c, ast.Call) and isinstance(c.func, ast.Attribute) and c.func.attr == 'rsplit']
-  join = [n for n in walk_local(pi.node) if isinstance(n, ast.JoinedStr) and u(n).replace(' ', '') in ("f'{module}.{submodule}'",)]
+  rs = [c for c in walk_local(fm.node) if isinstance(c, ast.Call) and isinstance(c.func, ast.Attribute) and c.args and u(c.args[0]) == "'.'"
+        and ((c.func.attr == 'rsplit' and [u(x) for x in c.args[1:]] + [u(k.value) for k in c.keywords if k.arg == 'maxsplit'] == ['1'])
+             or (c.func.attr == 'rpartition' and len(c.args) == 1))]
+  join = [n for n, tmpl, ops in format_sites(pi.node) if tmpl == '{}.{}' and len(ops) == 2]
   ctx.check(bool(rs) and bool(join), 'C06.import-syntax', construct(fm),
             'from-imports are split at the last dot when printed and joined with a dot when parsed',
             'the from-import split/join no longer mirror each other', fm.loc(), instance='from-split')
